@@ -52,7 +52,7 @@ func (f *Formatter) Format(content string) (string, error) {
 	// Check if this looks like a full document (starts with <!DOCTYPE or <html)
 	trimmedBody := strings.TrimSpace(body)
 	// (a closing </html> anywhere is what the template engine itself goes by)
-	isFullDocument := hasDoctypePrefix(trimmedBody) || strings.HasPrefix(trimmedBody, "<html") || strings.Contains(trimmedBody, "</html>")
+	isFullDocument := hasDoctypePrefix(trimmedBody) || startsWithHTMLTag(trimmedBody) || strings.Contains(trimmedBody, "</html>")
 
 	if isFullDocument {
 		return f.formatFullDocument(frontmatter, body)
@@ -60,6 +60,16 @@ func (f *Formatter) Format(content string) (string, error) {
 
 	// Handle partial/fragment formatting
 	return f.formatFragment(frontmatter, body)
+}
+
+// startsWithHTMLTag reports whether s starts with an <html> start tag (and not with a longer
+// name that merely begins like it: <html-view>).
+func startsWithHTMLTag(s string) bool {
+	if !strings.HasPrefix(s, "<html") {
+		return false
+	}
+	rest := s[len("<html"):]
+	return rest == "" || strings.ContainsRune(" \t\n\r\f/>", rune(rest[0]))
 }
 
 // hasDoctypePrefix reports whether s starts with a doctype declaration (in any letter case).
